@@ -2,6 +2,7 @@
 spec/Expr.tla and spec/PyNum.tla.  Nothing in here judges anything."""
 from __future__ import annotations
 
+import json
 import math
 from fractions import Fraction
 
@@ -116,9 +117,33 @@ _BIN_R = {v: k for k, v in _BIN.items()}
 _UN_R = {v: k for k, v in _UN.items()}
 
 
+_SHARE = None      # memo of from_json_shared: canonical JSON -> the one object built for it
+
+
 def from_json(j):
     """Expr.tla record (as JSON) -> pymbolic object, built with the constructors
-    (never with the overloaded operators)."""
+    (never with the overloaded operators).  Equal subtrees are distinct objects, unless the
+    call comes from from_json_shared."""
+    if _SHARE is None:
+        return _from_json_raw(j)
+    key = json.dumps(j, sort_keys=True)
+    if key not in _SHARE:
+        _SHARE[key] = _from_json_raw(j)
+    return _SHARE[key]
+
+
+def from_json_shared(j):
+    """Like from_json, but every repeated subtree (leaves included) is ONE shared object:
+    object identity is part of the input space of code that compares with `is`."""
+    global _SHARE
+    _SHARE = {}
+    try:
+        return from_json(j)
+    finally:
+        _SHARE = None
+
+
+def _from_json_raw(j):
     import pymbolic.primitives as p
     from immutabledict import immutabledict
     t = j["t"]
